@@ -187,3 +187,19 @@ Proof.
   intros Hr. apply (results_section_states_values _ _ _ _ _ _ _ Hr).
   change (Fin 0) with (Fin (0%Q)). apply (map_nth Fin).
 Qed.
+
+(* ---------------- legacy HIP_RA: the part of its method that HIP-RA-X shares ---------------- *)
+Lemma legacy_common_part W i :
+  let l := legacy_common W i in let o := hip_out W i in
+  nth 0 l 0 = o_volume o /\ nth 3 l 0 = o_enth_fluid o /\
+  (i_rff i == 1 -> nth 1 l 0 == o_vol_fluid o * i_fdens i) /\
+  (hip_err W i = None -> i_por i == 0 -> i_rrh i == 1 -> nth 2 l 0 == o_stored_rock o).
+Proof.
+  cbn [legacy_common nth hip_out o_volume o_enth_fluid o_vol_fluid o_stored_rock].
+  split; [reflexivity|]. split; [reflexivity|]. split.
+  - intros Hr. unfold c_vol_fluid. rewrite Hr. ring.
+  - intros He Hp Hrr. destruct (err_none_facts W i He) as [Hm _].
+    unfold c_stored_rock, c_enth_rock, c_dT, c_TrejK, celsius_to_kelvin.
+    assert (Ev : c_vol_rock i == c_volume i) by (unfold c_vol_rock; rewrite Hp; field).
+    rewrite Hrr. set (m := c_mass_rock i) in *. rewrite Ev. field. exact Hm.
+Qed.
